@@ -267,7 +267,7 @@ int eng_def_main(int argc, char **argv) {
       ChildRes c1 = run_child([&](Report &r) { E.check(lo, r); }, t1, 60), c2 = run_child([&](Report &r) { E.check(lo, r); }, t2, 60);
       if (c1.ok != c2.ok) machinery_error("nondeterministic replay of def case idx=" + std::to_string(lo));
       if (c1.ok) machinery_error("def batch died but the isolated case passes: idx=" + std::to_string(lo) + " " + child_failure_text(cr) + " " + cr.err_tail);
-      total.viol("{\"property\":\"C10\",\"kind\":\"crash\",\"engine\":\"def\",\"case\":" + jstr("idx=" + std::to_string(lo)) + ",\"grammar\":" + jstr(raw_to_string(E.desc_at(lo))) + ",\"detail\":" + jstr(child_failure_text(c2) + "; stderr: " + c2.err_tail.substr(0, 1500)) + "}");
+      total.viol("{\"property\":" + jstr(a.get("prop", "C10")) + ",\"kind\":\"crash\",\"engine\":\"def\",\"case\":" + jstr("idx=" + std::to_string(lo)) + ",\"grammar\":" + jstr(raw_to_string(E.desc_at(lo))) + ",\"detail\":" + jstr(child_failure_text(c2) + "; stderr: " + c2.err_tail.substr(0, 1500)) + "}");
       // continue after the failing case
       Report rest;
       run_child([&](Report &r) { for (long i = lo + 1; i < e; i++) E.check(i, r); }, total, 600);
